@@ -2,6 +2,8 @@ import Driver.Common
 import Parsley.Model.Filters
 import Parsley.Spec.Filters
 import Parsley.Spec.DeflateFixed
+import Parsley.Spec.Predictor
+import Parsley.Model.Loader
 /-!
   C06 driver.
 
@@ -12,6 +14,13 @@ import Parsley.Spec.DeflateFixed
     mta : rt/sh/mal  <shape>;<chain>;<corr>;<eol>;<payloadhex>      rz  <payloadhex>      fz  -
     chain: layers in decoding order joined by `+` (`-` = none); a layer is
            H.<ws>.<case>.<odd>.<pv> | A.<ws>.<z>.<pv> | F.<mode>.<seed>.<pv> | U.<pv>
+           | P.<mode>.<seed>.<sel>.<style>   FlateDecode (encoded as F.<mode>.<seed>) over the forward PNG / TIFF
+             filter of Spec/Predictor.lean: sel = predictor + 16*geometry choice + 256*row-width choice (resolved
+             against the length of the layer's input; row-width choice divisible by 3 = a SINGLE-COLUMN image),
+             style = omission mask of the parameter writer `PredSpec.Params.entries` (bit 0 /Predictor, 1 /Colors,
+             2 /Columns, 3 /BitsPerComponent: a default-valued entry is left out) + 16*j, j > 0: the entries left
+             out are written as NON-INTEGER objects instead (null, real, string, name, boolean, array, reference)
+           pv: 0 null, 1 <<>>, 2 <</Predictor 1>>, 3 <</Colors 3 /Columns 5>>, 4 / 5 non-integer values
            F modes: 0 stored blocks (partition by seed), 1 one final fixed-Huffman block of literals
            (FiltersSpec.zlibFixedLiterals), 2 / 3 fixed-Huffman blocks from an LZ77 factorisation chosen by
            the seed (DeflateFixed.factorise: candidate distances, match cap, length-258 spelling, forced
@@ -97,8 +106,10 @@ def parseDict (s : String) : Option Dict :=
 
 /-! ### model side -/
 
-/-- predictors other than 1 and DCT are outside C06; the generators never emit them -/
-def ext : Ext := { post := fun _ _ => .err .transform, dct := fun _ => .err .transform }
+/-- the code C06 leaves as parameters, as the loader model instantiates it: the tail of
+    `FlateDecode::transform` for /Predictor ≠ 1 is the C07 model behind the option glue (`Loader.fInt`: an
+    absent or non-integer entry is `none`), DCT is never emitted by the generators -/
+def ext : Ext := Loader.ext
 
 def showOut : Res (Bytes × Dict) → String
   | .ok (c, d) => s!"ok {hexOfBytes c} {showDict d}"
@@ -141,7 +152,68 @@ def parmsOf (pv : Nat) : Obj :=
   | 1 => .dict []
   | 2 => .dict [(strBytes "Predictor", .int 1)]
   | 3 => .dict [(strBytes "Colors", .int 3), (strBytes "Columns", .int 5)]
+  -- entries that are not Integer objects (the option glue's `_ => None` arm: read as absent)
+  | 4 => .dict [(strBytes "Colors", .null), (strBytes "Columns", .str (strBytes "x")), (strBytes "Predictor", .other)]
+  | 5 => .dict [(strBytes "BitsPerComponent", .name (strBytes "8")), (strBytes "Colors", .arr [.int 3]),
+                (strBytes "Columns", .other), (strBytes "Predictor", .int 1)]
   | _ => .null
+
+/-! ### predictor layers (spec side: Spec/Predictor.lean) -/
+
+def wholePixels : List (Nat × Nat) := [(1, 8), (2, 8), (3, 8), (4, 8), (1, 16), (2, 16)]
+/-- sample layouts of less than a byte (PNG predictors only), all with one byte per pixel -/
+def subPixels : List (Nat × Nat) := [(1, 1), (1, 2), (1, 4), (2, 4)]
+
+/-- geometries (colors, bits per component, columns) whose rows have `w` bytes -/
+def geometries (tiff : Bool) (w : Nat) : List (Nat × Nat × Nat) :=
+  let a := wholePixels.filterMap fun (c, b) => if w % (c * b / 8) == 0 then some (c, b, w / (c * b / 8)) else none
+  let sub : List (Nat × Nat × Nat) := if tiff then [] else [(1, 1, 8 * w), (1, 2, 4 * w), (1, 4, 2 * w), (2, 4, w)]
+  a ++ sub
+
+/-- single-column geometries (columns = 1, the default of /Columns): a row is one pixel, and the rows
+    tile a stream of `len` bytes -/
+def singleColumn (tiff : Bool) (len : Nat) : List (Nat × Nat × Nat) :=
+  ((wholePixels.filter fun (c, b) => len % (c * b / 8) == 0).map fun (c, b) => (c, b, 1)) ++
+  (if tiff then [] else subPixels.map fun (c, b) => (c, b, 1))
+
+/-- the parameters the selector `sel` stands for on an input of `len` bytes -/
+def predParams (sel len : Nat) : PredSpec.Params :=
+  let pr := if [2, 10, 11, 12, 13, 14].contains (sel % 16) then sel % 16 else 12
+  let g := sel / 16 % 16
+  let ws := sel / 256
+  if ws % 3 == 0 then
+    let gs := singleColumn (pr == 2) len
+    let (c, b, n) := gs[g % gs.length]?.getD (1, 8, 1)
+    ⟨pr, c, n, b⟩
+  else
+    let ds := (List.range 41).filter fun d => d ≥ 1 && len % d == 0
+    let w := if ws % 5 == 0 || ds.isEmpty then len else ds[ws % ds.length]?.getD len
+    let gs := geometries (pr == 2) w
+    let (c, b, n) := gs[g % gs.length]?.getD (1, 8, w)
+    ⟨pr, c, n, b⟩
+
+/-- a value that is not an Integer object, standing where the integer `v` would -/
+def junkObj (t v : Nat) : Obj :=
+  match t % 7 with
+  | 0 => .null | 1 => .other | 2 => .str (strBytes s!"{v}") | 3 => .name (strBytes s!"{v}") | 4 => .bool true
+  | 5 => .arr [.int v] | _ => .ref v 0
+
+/-- the /DecodeParms dictionary of `p` written by the spec-side writer with omission mask `style % 16`;
+    with `style / 16 = j > 0` the entries left out appear as non-integer objects instead -/
+def predParms (p : PredSpec.Params) (style : Nat) : Obj :=
+  let (a, b, c, d) := p.entries (style % 16)
+  let j := style / 16
+  let ent (k : String) (o : Option Nat) (dflt i : Nat) : List (Bytes × Obj) :=
+    match o with
+    | some v => [(strBytes k, .int v)]
+    | none => if j == 0 then [] else [(strBytes k, junkObj (j + i) dflt)]
+  .dict (ent "BitsPerComponent" d PredSpec.defaultBpc 3 ++ ent "Colors" b PredSpec.defaultColors 1 ++
+         ent "Columns" c PredSpec.defaultColumns 2 ++ ent "Predictor" a PredSpec.defaultPredictor 0)
+
+/-- does a parameter dictionary hold a value that is not an integer?  (No meaning in the standard.) -/
+def nonIntParms : Obj → Bool
+  | .dict d => d.any fun kv => match kv.2 with | .int _ => false | _ => true
+  | _ => false
 
 structure Layer where
   kind : Char
@@ -156,6 +228,7 @@ def Layer.show (l : Layer) : String :=
   | 'H' => s!"H.{l.a}.{l.b}.{l.c}.{l.pv}"
   | 'A' => s!"A.{l.a}.{l.b}.{l.pv}"
   | 'F' => s!"F.{l.a}.{l.b}.{l.pv}"
+  | 'P' => s!"P.{l.a}.{l.b}.{l.c}.{l.pv}"
   | _ => s!"U.{l.pv}"
 
 def Layer.parse (s : String) : Option Layer :=
@@ -163,6 +236,7 @@ def Layer.parse (s : String) : Option Layer :=
   | [_, a, b, c, pv], some "H" => some ⟨'H', a, b, c, pv⟩
   | [_, a, b, pv], some "A" => some ⟨'A', a, b, 0, pv⟩
   | [_, a, b, pv], some "F" => some ⟨'F', a, b, 0, pv⟩
+  | [_, a, b, c, pv], some "P" => some ⟨'P', a, b, c, pv⟩
   | [_, pv], some "U" => some ⟨'U', 0, 0, 0, pv⟩
   | _, _ => none
 
@@ -172,7 +246,32 @@ def parseChain (s : String) : Option (List Layer) :=
 
 def Layer.name (l : Layer) : Obj :=
   match l.kind with
-  | 'H' => name! "ASCIIHexDecode" | 'A' => name! "ASCII85Decode" | 'F' => name! "FlateDecode" | _ => name! "LZWDecode"
+  | 'H' => name! "ASCIIHexDecode" | 'A' => name! "ASCII85Decode" | 'F' => name! "FlateDecode" | 'P' => name! "FlateDecode"
+  | _ => name! "LZWDecode"
+
+/-- the predictor parameters of a P layer on an input of `len` bytes (none on empty input: a PNG
+    predictor needs at least one row; the layer is then a plain Flate layer with /Predictor 1) -/
+def Layer.params (l : Layer) (len : Nat) : Option PredSpec.Params :=
+  if l.kind != 'P' || len == 0 then none else some (predParams l.c len)
+
+/-- the layer's entry of /DecodeParms -/
+def Layer.parms (l : Layer) (len : Nat) : Obj :=
+  if l.kind == 'P' then
+    match l.params len with
+    | some p => predParms p l.pv
+    | none => .dict [(strBytes "Predictor", .int 1)]
+  else parmsOf l.pv
+
+/-- what the compressor of the layer is fed: the forward filter of the specification over the rows -/
+def Layer.pre (l : Layer) (x : Bytes) : Bytes :=
+  match l.params x.length with
+  | some p =>
+    let w := PredSpec.rowBytes p.columns p.colors p.bpc
+    PredSpec.predict p (PredSpec.splitRows w (x.length / w) x)
+  | none => x
+
+/-- the Flate layer a P layer compresses with -/
+def Layer.flate (l : Layer) : Layer := if l.kind == 'P' then { l with kind := 'F' } else l
 
 /-- the fixed-Huffman factorisation a seed stands for: greedy matches over a list of candidate
     distances (all distance symbols with and without extra bits are reachable), capped match length,
@@ -192,8 +291,8 @@ def fixedBlocks (seed : Nat) (x : Bytes) : List (List DeflateFixed.Tok) :=
     (fun i => seed % 3 == 0 && (i * 7 + seed) % 5 == 0) x
   DeflateFixed.chunk (ks[seed % 7]?.getD 50) toks
 
-/-- spec-side encoding of one layer -/
-def Layer.encode (l : Layer) (x : Bytes) : Bytes :=
+/-- spec-side encoding of one layer (H, A, F) -/
+def Layer.encodeBase (l : Layer) (x : Bytes) : Bytes :=
   match l.kind with
   | 'H' =>
     let upper : Nat → Bool := match l.b with | 0 => fun _ => false | 1 => fun _ => true | _ => fun i => (i * 7 + l.a) % 3 == 0
@@ -218,6 +317,45 @@ def Layer.encode (l : Layer) (x : Bytes) : Bytes :=
       FiltersSpec.zlibStored (FiltersSpec.partition (x.length + 1) sizes x)
   | _ => x
 
+/-- spec-side encoding of one layer: predictor (P layers), then the layer's own encoder -/
+def Layer.encode (l : Layer) (x : Bytes) : Bytes := l.flate.encodeBase (l.pre x)
+
+/-! ### `z` anywhere in an ASCII85 text (spec side: ISO 32000-1 7.4.3 — `z` stands for a group of four zero
+    bytes and is legal only where a group may begin) -/
+
+/-- the insertion points of an ASCII85 text as the standard reads it: before byte `i`, `grp` groups (five
+    digits or a `z`) are complete and `pos` digits of the next group have been seen; the last point is at the
+    `~` of the EOD marker (or the end of the text) -/
+def a85Points (x : Bytes) : List (Nat × Nat × Nat) :=
+  let rec go (s : Bytes) (i grp pos : Nat) (acc : List (Nat × Nat × Nat)) : List (Nat × Nat × Nat) :=
+    match s with
+    | [] => ((i, grp, pos) :: acc).reverse
+    | b :: t =>
+      let acc := (i, grp, pos) :: acc
+      if b == 0x7E then acc.reverse
+      else if b == 0x7A then go t (i + 1) (grp + 1) pos acc
+      else if b == 0x20 || b == 0x0A || b == 0x0D || b == 0x09 || b == 0x0C || b == 0x00 then go t (i + 1) grp pos acc
+      else if pos == 4 then go t (i + 1) (grp + 1) 0 acc else go t (i + 1) grp (pos + 1) acc
+  go x 0 0 0 []
+
+/-- where `arg` puts its `z`s: after `k = arg % 5` digits of the first / middle / last group, or directly before
+    the EOD marker (`arg / 5 % 4`), 1..3 of them (`arg / 20 % 3`), bare or wrapped in white space
+    (`arg / 60 % 3`; with white space the LAST point with that group position is taken, i.e. after the white space
+    the encoder put between the digits).  Result: index, groups complete there, digits of the open group there, text -/
+def zInsertion (x : Bytes) (arg : Nat) : Nat × Nat × Nat × Bytes :=
+  let k := arg % 5
+  let gsel := arg / 5 % 4
+  let cnt := arg / 20 % 3 + 1
+  let wsb := arg / 60 % 3
+  let pts := a85Points x
+  let endPt := pts.getLast?.getD (0, 0, 0)
+  let ngroups := endPt.2.1 + (if endPt.2.2 > 0 then 1 else 0)
+  let tg := match gsel with | 0 => 0 | 1 => ngroups / 2 | _ => ngroups - 1
+  let cands := if gsel == 3 then [endPt] else pts.filter fun (_, g, p) => g == tg && p == k
+  let pt := (if wsb == 0 then cands.head? else cands.getLast?).getD endPt
+  let z1 : Bytes := match wsb with | 0 => [0x7A] | 1 => [0x20, 0x7A] | _ => [0x0A, 0x7A, 0x09]
+  (pt.1, pt.2.1, pt.2.2, (List.replicate cnt z1).flatten)
+
 /-- corruption `<layer>.<op>.<arg>` applied to the output of layer `layer` (1 = outermost); `0.0.0` = none -/
 def corrupt (l : Layer) (op arg : Nat) (x : Bytes) : Bytes :=
   match l.kind, op with
@@ -229,6 +367,9 @@ def corrupt (l : Layer) (op arg : Nat) (x : Bytes) : Bytes :=
   | 'A', 3 => [0x21, 0x7A] ++ x                                                  -- `z` inside a group
   | 'A', 4 => [0x73, 0x38, 0x57, 0x2D, 0x22] ++ x                                -- `s8W-"` = 2^32
   | 'A', 5 => let k := arg % (x.length - 1); x.take k ++ [0x76] ++ x.drop k     -- illegal character `v`
+  | 'A', 6 => let (i, _, _, ins) := zInsertion x arg; x.take i ++ ins ++ x.drop i -- `z` after k digits of a group (k = 0: legal)
+  | 'A', 7 => x ++ (match arg % 4 with | 0 => [0x7A] | 1 => [0x20, 0x7A] | 2 => [0x0A, 0x7A, 0x7A] | _ => [0x7A, 0x7E, 0x3E])  -- `z` after the EOD
+  | 'A', 8 => [0x3C, 0x7E] ++ x                                                  -- Adobe `<~` prefix (then `z` may come first)
   | 'F', 1 => x.take (arg % x.length)                                            -- truncated
   | 'F', 2 => x.dropLast ++ [(x.getLast?.getD 0) ^^^ (UInt8.ofNat (1 <<< (arg % 8)))]   -- Adler-32 wrong
   | 'F', 3 => match x with | a :: b :: t => a :: (b ^^^ 0x04) :: t | _ => x      -- header check fails
@@ -262,25 +403,50 @@ def Recipe.parse (s : String) : Option Recipe :=
     whether every fixed-Huffman layer of the recipe is written from a VALID factorisation of its
     input (the hypothesis of `inflate_fixed_roundtrip_final`), checked with the specification's
     `resolveBlocksA` (= `resolveBlocks`, theorem `resolveBlocksA_eq`) -/
-def Recipe.build (r : Recipe) : Bytes × Bool :=
-  let rec go (ls : List Layer) (idx : Nat) : Bytes × Bool :=
+def Recipe.build (r : Recipe) : Bytes × Bool × List Obj :=
+  let rec go (ls : List Layer) (idx : Nat) : Bytes × Bool × List Obj :=
     match ls with
-    | [] => (r.payload, true)
-    | l :: rest =>
-      let (inner, ok) := go rest (idx + 1)
+    | [] => (r.payload, true, [])
+    | l0 :: rest =>
+      let (inner0, ok, ps) := go rest (idx + 1)
+      -- a P layer: its /DecodeParms entry is fitted to the input, the input goes through the forward filter
+      let parm := l0.parms inner0.length
+      let inner := l0.pre inner0
+      let l := l0.flate
       if l.kind == 'F' && (l.a == 2 || l.a == 3) then
         let bs := fixedBlocks l.b inner
         let ok := ok && ((DeflateFixed.resolveBlocksA bs #[]).map Array.toList == some inner)
         let e := if l.a == 2 then DeflateFixed.zlibFixed bs inner
                  else DeflateFixed.zlibFixedF bs.dropLast (bs.getLast?.getD []) inner
-        (if idx == r.corrL then corrupt l r.corrOp r.corrArg e else e, ok)
+        (if idx == r.corrL then corrupt l r.corrOp r.corrArg e else e, ok, parm :: ps)
       else
-        let e := l.encode inner
-        (if idx == r.corrL then corrupt l r.corrOp r.corrArg e else e, ok)
-  let (c, ok) := go r.chain 1
-  (c ++ (if r.chain.isEmpty then [] else eolBytes r.eol), ok)
+        let e := l.encodeBase inner
+        (if idx == r.corrL then corrupt l r.corrOp r.corrArg e else e, ok, parm :: ps)
+  let (c, ok, ps) := go r.chain 1
+  (c ++ (if r.chain.isEmpty then [] else eolBytes r.eol), ok, ps)
 
 def Recipe.content (r : Recipe) : Bytes := r.build.1
+def Recipe.parms (r : Recipe) : List Obj := r.build.2.2
+
+/-- a `z` insertion (corruption 6 on an ASCII85 layer): groups complete and digits of the open group at the
+    insertion point, number of `z`s, and whether the layer is the innermost one -/
+def Recipe.zcase (r : Recipe) : Option (Nat × Nat × Nat × Bool) :=
+  if r.corrL == 0 || r.corrOp != 6 then none else
+  match r.chain[r.corrL - 1]? with
+  | some l =>
+    if l.kind != 'A' then none else
+    -- the clean encoding the layer wrote: the layers below it, then its own encoder
+    let inner := ({ r with chain := r.chain.drop r.corrL, corrL := 0, eol := 0 } : Recipe).build.1
+    let (_, grp, pos, _) := zInsertion (l.encode inner) r.corrArg
+    some (grp, pos, r.corrArg / 20 % 3 + 1, r.corrL == r.chain.length)
+  | none => none
+
+/-- what the decoder must return: the payload; with `z`s inserted at a group boundary of the innermost layer,
+    the payload with four zero bytes per `z` at that place -/
+def Recipe.wanted (r : Recipe) : Bytes :=
+  match r.zcase with
+  | some (grp, 0, cnt, true) => r.payload.take (4 * grp) ++ List.replicate (4 * cnt) 0 ++ r.payload.drop (4 * grp)
+  | _ => r.payload
 
 /-- entries that are not filter-related: what must survive the pruning -/
 def Recipe.extrasL (r : Recipe) (len : Nat) : Dict :=
@@ -291,9 +457,8 @@ def Recipe.extrasL (r : Recipe) (len : Nat) : Dict :=
           (strBytes "Resources", .dict [(strBytes "Filter", name! "Nested")]), (strBytes "W", .arr [.int 1, .int 2, .int 1])]
 
 /-- how the recipe's shape spells /Filter and /DecodeParms -/
-def Recipe.filterEntries (r : Recipe) : Dict :=
+def Recipe.filterEntries (r : Recipe) (parms : List Obj) : Dict :=
   let names := r.chain.map Layer.name
-  let parms := r.chain.map fun l => parmsOf l.pv
   let F := strBytes "Filter"; let P := strBytes "DecodeParms"
   let s := r.shape / 3
   match s with
@@ -318,13 +483,23 @@ def Recipe.filterEntries (r : Recipe) : Dict :=
   | 11 => [(P, .dict []), (F, .arr names)]                -- LENIENT: array of filters, one dictionary
   | _ => [(F, .arr names)]
 
-def Recipe.dictL (r : Recipe) (len : Nat) : Dict :=
-  (r.filterEntries ++ r.extrasL len).foldl (fun d (k, v) => insertKey k v d) []
+def Recipe.dictL (r : Recipe) (parms : List Obj) (len : Nat) : Dict :=
+  (r.filterEntries parms ++ r.extrasL len).foldl (fun d (k, v) => insertKey k v d) []
 
 inductive Expect where
-  | okPayload | errGuard | errTransform | okOrGuard
+  | okPayload | errGuard | errTransform | okOrGuard | okOrTransform | unsupported
 
-def Recipe.expect (r : Recipe) : Expect :=
+/-- a predictor layer needs its parameter dictionary: the shapes that carry one entry per filter -/
+def Recipe.parmsReach (r : Recipe) : Bool :=
+  let s := r.shape / 3
+  (s == 0 && r.chain.length == 1) || s == 2 || (s == 3 && r.chain.length != 1)
+
+def Recipe.supported (r : Recipe) : Bool :=
+  let s := r.shape / 3
+  !(r.chain.any (·.kind == 'P')) || r.parmsReach || (5 ≤ s && s ≤ 10)
+
+def Recipe.expect (r : Recipe) (parms : List Obj) : Expect :=
+  if !r.supported then .unsupported else
   let s := r.shape / 3
   let unknown := r.chain.any (·.kind == 'U')
   let single := r.chain.length == 1
@@ -335,13 +510,24 @@ def Recipe.expect (r : Recipe) : Expect :=
   else if s == 11 then .okOrGuard
   else if r.corrL != 0 then
     -- a corrupt layer is reached only if no unknown filter precedes it
-    if (r.chain.take (r.corrL - 1)).any (·.kind == 'U') then .errGuard else .errTransform
+    if (r.chain.take (r.corrL - 1)).any (·.kind == 'U') then .errGuard
+    else match r.zcase with
+      | some (_, 0, _, true) => .okPayload          -- `z` at a group boundary is legal: `Recipe.wanted`
+      | some (_, 0, _, false) => .unsupported       -- (it alters the input of the layers below)
+      | some _ => .errTransform                     -- `z` inside a group
+      | none =>
+        -- bytes after the EOD marker / an Adobe `<~` prefix: outside ISO 32000-1; the payload or an error
+        if ((r.chain[r.corrL - 1]?).map (·.kind)) == some 'A' && (r.corrOp == 7 || r.corrOp == 8) then .okOrTransform
+        else .errTransform
   else if unknown then .errGuard
+  -- shapes that hand every filter its own parameter entry: an entry that is not an integer has no
+  -- meaning in the standard (the decoder may take a default or refuse; never a wrong value, never a panic)
+  else if r.parmsReach && parms.any nonIntParms then .okOrTransform
   else .okPayload
 
 def caseOf (kind : String) (r : Recipe) : String :=
-  let c := r.content
-  s!"{kind} {r.mta} {showDict (r.dictL c.length)} {hexOfBytes c}"
+  let (c, _, ps) := r.build
+  s!"{kind} {r.mta} {showDict (r.dictL ps c.length)} {hexOfBytes c}"
 
 /-! ### the oracle -/
 
@@ -376,12 +562,16 @@ def judge (case impl : String) : String :=
       | none => "bad-case"
       | some r =>
         -- the case must carry exactly what the recipe denotes
-        let (content, factOk) := r.build
+        let (content, factOk, parms) := r.build
         let extras := r.extrasL content.length
-        if showDict (r.dictL content.length) != ds || hexOfBytes content != hex then "bad-case recipe and data differ" else
+        if showDict (r.dictL parms content.length) != ds || hexOfBytes content != hex then "bad-case recipe and data differ" else
         if !factOk then "bad-case invalid factorisation" else
-        let okLine := s!"ok {hexOfBytes r.payload} {showDict (extras.foldl (fun d (k, v) => insertKey k v d) [])}"
-        match r.expect with
+        let want := r.wanted
+        let okLine := s!"ok {hexOfBytes want} {showDict (extras.foldl (fun d (k, v) => insertKey k v d) [])}"
+        match r.expect parms with
+        | .unsupported => "bad-case predictor layer in a shape without its parameters / aligned z above another layer"
+        | .okOrTransform =>
+          if impl == okLine || impl == "err transform" then "ok" else s!"bad value expected payload or err transform, got {impl.take 60}"
         | .okPayload =>
           if impl == okLine then "ok"
           else if iw.head? == some "ok" then
@@ -389,9 +579,9 @@ def judge (case impl : String) : String :=
             | [_, got, gd] =>
               if gd != showDict (extras.foldl (fun d (k, v) => insertKey k v d) []) then "bad dict pruned dictionary differs"
               else match bytesOfHex got with
-                | some g => if g.length < r.payload.length && g == r.payload.take g.length
-                            then s!"bad truncated {g.length} of {r.payload.length} bytes reported as success"
-                            else s!"bad value decoded {g.length} bytes, expected {r.payload.length}"
+                | some g => if g.length < want.length && g == want.take g.length
+                            then s!"bad truncated {g.length} of {want.length} bytes reported as success"
+                            else s!"bad value decoded {g.length} bytes, expected {want.length}"
                 | none => "bad value unreadable"
             | _ => "bad value unreadable"
           else s!"bad rejected valid encoding rejected: {impl}"
@@ -452,7 +642,7 @@ def gen (seed n : Nat) (tier : String) (emit : String → IO Unit) : IO Unit := 
   -- 2. every shape (accepting, rejecting, lenient) with chains of length 0..3, every parameter variant
   for s in List.range 12 do
     for clen in [0, 1, 2, 3] do
-      for pv in [0, 1, 2, 3] do
+      for pv in [0, 1, 2, 3, 4, 5] do
         let (ch, r1) := randChain r clen false
         let ch := ch.map fun l => { l with pv := if s == 1 then 0 else pv }
         let (p, r2) := mkPayload r1 (10 + clen) pv
@@ -467,6 +657,36 @@ def gen (seed n : Nat) (tier : String) (emit : String → IO Unit) : IO Unit := 
     r := r1
     let ch := ch.take pos ++ [⟨'U', 0, 0, 0, 0⟩] ++ ch.drop pos
     emit (caseOf "sh" { shape := 3, chain := ch, payload := [1, 2, 3, 4, 5] })
+  -- 2b. FlateDecode layers with a predictor (the /DecodeParms entries FlateDecode::transform reads): predictors
+  --     2, 10..14 x {single-column image in three pixel layouts, rows of several pixels, one row} x the writer's
+  --     omission choice {every entry written, every default-valued entry left out, /Columns left out, a random
+  --     subset of the default-valued entries left out} x input lengths 1..30 x four Flate encoders, alone under a
+  --     single name, alone in parallel arrays, and inside chains (the predictor layer outermost / innermost)
+  let mut pi := seed % 1000
+  for pr in [2, 10, 11, 12, 13, 14] do
+    for wsel in [0, 3, 6, 1, 2, 5] do
+      for maskSel in [0, 1, 2, 3] do
+        for len in [1, 2, 3, 4, 6, 8, 12, 30] do
+          pi := pi + 1
+          let (rm, r1) := r.nat 16
+          let (g, r2) := r1.nat 16
+          let (p, r3) := mkPayload r2 len pi
+          r := r3
+          let mask := match maskSel with | 0 => 0 | 1 => 15 | 2 => 4 | _ => rm
+          let l : Layer := ⟨'P', pi % 4, pi % 50, pr + 16 * g + 256 * wsel, mask⟩
+          let (ch, shape) : List Layer × Nat := match pi % 4 with
+            | 0 => ([l], 0) | 1 => ([l], 2) | 2 => ([kinds[0]!, l], 2) | _ => ([l, kinds[1]!, kinds[2]!], 2)
+          emit (caseOf "rt" { shape := shape * 3 + pi % 3, chain := ch, eol := pi % 4, payload := p })
+  --     the same dictionaries with the left-out entries written as objects that are not integers (seven types)
+  for pr in [2, 10, 11, 12, 13, 14] do
+    for j in [1, 2, 3, 4, 5, 6, 7] do
+      for len in [3, 8] do
+        pi := pi + 1
+        let (g, r1) := r.nat 16
+        let (p, r2) := mkPayload r1 len 0
+        r := r2
+        let l : Layer := ⟨'P', pi % 4, pi % 50, pr + 16 * g + 256 * (3 * (pi % 2) + pi % 2), (if pi % 3 == 0 then 4 else 15) + 16 * j⟩
+        emit (caseOf "sh" { shape := (if pi % 2 == 0 then 0 else 2) * 3 + pi % 3, chain := [l], eol := pi % 4, payload := p })
   -- 3. every corruption on every layer kind, outermost and inner
   for (k, ops) in [('H', [1, 2, 3]), ('A', [1, 2, 3, 4, 5]), ('F', [1, 2, 3, 4, 5])] do
     for op in ops do
@@ -481,6 +701,41 @@ def gen (seed n : Nat) (tier : String) (emit : String → IO Unit) : IO Unit := 
         let l : Layer := ⟨k, if k == 'F' then variant % 4 else a, if k == 'F' then variant else variant % 3, 0, 0⟩
         emit (caseOf "mal" { shape := 3 + variant % 3, chain := outer ++ [l] ++ inner, corrL := outer.length + 1,
                              corrOp := op, corrArg := arg, payload := p })
+  -- 3b. `z` everywhere in an ASCII85 text: after k = 0..4 digits of the first / middle / last group and directly
+  --     before `~>` x 1..3 consecutive `z` x {bare, after white space, wrapped in white space} x payloads with
+  --     complete and partial final groups (4..23 bytes, zero groups spelled `z` or `!!!!!`) x white space
+  --     sprinkled between the digits or not; the verdict comes from the standard's reading (a85Points): at a group
+  --     boundary the `z`s are four zero bytes each, anywhere else an error.  The layer alone or below another one.
+  for gsel in [0, 1, 2, 3] do
+    for k in [0, 1, 2, 3, 4] do
+      for wsb in [0, 1, 2] do
+        for variant in List.range (if thorough then 6 else 3) do
+          let vi := variant + 3 * ((gsel + k + wsb) % 2)
+          let len := ([8, 11, 18, 4, 23, 13] : List Nat)[vi]?.getD 8
+          let (p, r1) := mkPayload r len (if vi % 2 == 0 then 0 else 3)
+          r := r1
+          let l : Layer := ⟨'A', if vi % 2 == 0 then 0 else 7 + vi + k, vi % 3, 0, 0⟩
+          let outer : List Layer := if vi % 3 == 2 then [kinds[(k + gsel) % 3]!] else []
+          emit (caseOf "mal" { shape := 3 + vi % 3, chain := outer ++ [l], corrL := outer.length + 1, corrOp := 6,
+                               corrArg := k + 5 * gsel + 20 * (vi % 3) + 60 * wsb, payload := p })
+  --     `z` after the EOD marker, and the Adobe `<~` prefix before a text that begins with `z` or with digits
+  for op in [7, 8] do
+    for variant in List.range 8 do
+      let (p, r1) := mkPayload r (4 + variant) (if variant % 2 == 0 then 2 else 0)
+      r := r1
+      let l : Layer := ⟨'A', if variant % 4 < 2 then 0 else 11 + variant, 1 - variant % 2, 0, 0⟩
+      emit (caseOf "mal" { shape := 3 + variant % 3, chain := [l], corrL := 1, corrOp := op, corrArg := variant, payload := p })
+  --    corruptions of the zlib stream of a predictor layer
+  for op in [1, 2, 3, 4, 5] do
+    for variant in List.range 4 do
+      let (arg, r1) := r.nat 100000
+      let (sel, r2) := r1.nat 4096
+      let (p, r3) := mkPayload r2 (12 + variant) variant
+      let (outer, r4) := randChain r3 (variant % 2) false
+      r := r4
+      let l : Layer := ⟨'P', variant, variant + op, [2, 10, 12, 14][variant]! + 16 * sel, 15⟩
+      emit (caseOf "mal" { shape := 6 + variant % 3, chain := outer ++ [l], corrL := outer.length + 1,
+                           corrOp := op, corrArg := arg, payload := p })
   -- 4. larger payloads (the 32 KiB boundary of the old Flate glue; stored blocks of 65535)
   let big : List Nat := if thorough then [32767, 32768, 32769, 65535, 65536, 100000, 200000, 1048576, 3000000]
                         else [32767, 32768, 32769, 65535, 65536, 100000]
@@ -517,7 +772,16 @@ def gen (seed n : Nat) (tier : String) (emit : String → IO Unit) : IO Unit := 
     let (sh, r8) := r7.nat 3
     r := r8
     let ch := ch.map fun l => { l with pv := pvs }
-    let shape := if clen == 1 && sh == 0 then (if pvs == 0 then 0 else 0) else if sh == 1 && pvs == 0 then 1 else 2
+    -- one recipe in four: a predictor layer at a random position, any selector, any omission mask
+    let (pk, r9) := r.nat 4
+    let (pos, r10) := r9.nat (clen + 1)
+    let (sel, r11) := r10.nat 4096
+    let (pr, r12) := r11.pick ([2, 10, 11, 12, 13, 14] : List Nat)
+    let (mask, r13) := r12.nat 16
+    let (mode, r14) := r13.nat 4
+    r := r14
+    let ch := if pk == 0 then ch.take pos ++ [⟨'P', mode, sel % 50, pr + 16 * sel, mask⟩] ++ ch.drop pos else ch
+    let shape := if ch.length == 1 && sh == 0 then 0 else if sh == 1 && pvs == 0 && pk != 0 then 1 else 2
     emit (caseOf "rt" { shape := shape * 3 + len % 3, chain := ch, eol := eol, payload := p })
   -- 6. arbitrary bytes under one filter, and single-byte mutations of valid encodings (correspondence only)
   for i in List.range (n / 2) do
